@@ -44,3 +44,71 @@ class T4CardAdversary(object):
         if k == 2:
             raise nfc.tag.tt4.Type4TagCommandError(0x6A82)
         return nondet_bytearray(0, None)
+
+
+import nfc.tag.tt2
+
+
+class Ntag21xModel(object):
+    """NTAG21x as far as password protection goes (NTAG213/215/216 data sheet 8.8, 10.7): the configuration
+    pages hold AUTH0, ACCESS, PWD (4 octets) and PACK (2 octets); PWD_AUTH (1Bh) answers PACK iff the
+    password matches and NAKs otherwise; PWD and PACK always read back as zero."""
+    def __init__(self, cfgpage, mem):
+        self.cfgpage = cfgpage
+        self.mem = mem          # bytearray: the whole page memory
+
+    def transceive(self, data):
+        if len(data) == 5 and data[0] == 0x1B:
+            pwd = self.mem[4 * self.cfgpage + 8:4 * self.cfgpage + 12]
+            if data[1:5] == pwd:
+                return bytearray(self.mem[4 * self.cfgpage + 12:4 * self.cfgpage + 14])
+            raise nfc.tag.tt2.Type2TagCommandError(nfc.tag.TIMEOUT_ERROR)
+        return nondet_bytearray(0, 16)
+
+    def read(self, page):
+        data = bytearray(self.mem[4 * page:4 * page + 16])
+        if len(data) != 16:
+            raise nfc.tag.tt2.Type2TagCommandError(nfc.tag.tt2.INVALID_PAGE_ERROR)
+        # PWD and PACK can not be read back
+        for p in range(4):
+            if page + p == self.cfgpage + 2:
+                data[4 * p:4 * p + 4] = b"\0\0\0\0"
+            if page + p == self.cfgpage + 3:
+                data[4 * p:4 * p + 2] = b"\0\0"
+        return data
+
+    def write(self, page, data):
+        if len(data) != 4 or 4 * page + 4 > len(self.mem):
+            raise nfc.tag.tt2.Type2TagCommandError(nfc.tag.tt2.INVALID_PAGE_ERROR)
+        self.mem[4 * page:4 * page + 4] = data
+        return True
+
+
+from pyvc_rt import ideal
+
+
+class FelicaLiteModel(object):
+    """FeliCa Lite internal authentication (FeliCa Lite user's manual 3.3/3.4, as read independently):
+    the card key CK is secret; the reader writes the random challenge to block 80h, each 8-octet half in
+    reversed octet order; the session key is 3DES-CBC(CK, iv=0) of RC1||RC2; reading ID (82h) together with
+    MAC (81h) returns ID || MAC(ID, SK, iv=RC1) || 8 zero octets."""
+    def __init__(self, ck, idblock):
+        self.ck = ck
+        self.idblock = idblock
+        self.rcblock = bytes(16)
+
+    def write(self, data, block):
+        if block == 0x80:
+            self.rcblock = bytes(data)
+        return None
+
+    def rc(self):
+        b = self.rcblock
+        return bytes([b[7], b[6], b[5], b[4], b[3], b[2], b[1], b[0],
+                      b[15], b[14], b[13], b[12], b[11], b[10], b[9], b[8]])
+
+    def read_id_and_mac(self):
+        rc = self.rc()
+        sk = ideal('3des-encrypt', 16, self.ck, bytes(8), rc)
+        mac = ideal('mac', 8, self.idblock, sk, rc[0:8], False)
+        return bytearray(self.idblock + mac + bytes(8))
